@@ -369,6 +369,8 @@ val is_lower : n -> bool
 
 val is_19 : n -> bool
 
+val is_09 : n -> bool
+
 val to_upper : n -> n
 
 val to_lower : n -> n
@@ -502,7 +504,8 @@ type ringreq = { r_l : nat; r_r : nat; r_order : z; r_ls : n option;
 val raise_or : exn option -> 'a1 res -> 'a1 res
 
 val read_index :
-  nat -> toks -> exn option -> str option list -> (str option list * toks) res
+  nat -> toks -> exn option -> str option list -> nat -> ((str option
+  list * toks) * nat) res
 
 val drain : toks -> exn option -> nat option -> nat -> (toks * nat) res
 
